@@ -11,6 +11,8 @@ open Matrix
 
 namespace GsLemmas
 
+set_option linter.unusedSectionVars false
+
 variable {n : Type*} [Fintype n] [DecidableEq n] {R : Type*} [CommRing R]
 
 /-- C05: with A.K = 1 the vector K k solves the kriging system A w = k. -/
@@ -93,6 +95,5 @@ end GsLemmas
 /-- C06: inverse of a positive definite matrix has a non-negative quadratic form (variance <= sill). -/
 theorem GsLemmas.quad_inv_nonneg {n : Type*} [Fintype n] [DecidableEq n] (A : Matrix n n ℝ)
     (hA : A.PosDef) (k : n → ℝ) : 0 ≤ k ⬝ᵥ (A⁻¹ *ᵥ k) := by
-  have h := hA.inv.posSemidef
-  have := h.2 k
-  simpa using this
+  have h := hA.inv.posSemidef.dotProduct_mulVec_nonneg k
+  simpa using h
